@@ -2,12 +2,14 @@
 # Regression over every seeded change: applies each patch to /repo, runs the quick check of its property,
 # undoes it; prints one line per change. A change that is no longer detected is a regression of the machinery.
 # usage: tools/run_all_seeded.sh [name-pattern]   (output also in notes/seeded-regression.txt)
+#        SKIP_FILE=<earlier output>: names listed there are not run again
 cd /verif || exit 2
 OUT=notes/seeded-regression.txt
 : > $OUT
 for D in seeded/*${1:-}*/; do
   N=$(basename $D)
   [ -f $D/patch.diff ] || continue
+  if [ -n "${SKIP_FILE:-}" ] && grep -q "^$N " "$SKIP_FILE"; then continue; fi
   P=$(python3 -c "import json;print(json.load(open('$D/meta.json'))['property'])" 2>/dev/null) || continue
   case "$N" in benign-*) EXPECT=0 ;; *) EXPECT=1 ;; esac
   R=$(tools/try_mutant.sh /verif/$D/patch.diff $P | head -1)
